@@ -35,4 +35,37 @@ float __CPROVER_uninterpreted_frexpf(float, void *);
 double __CPROVER_uninterpreted_frexp(double, void *);
 #define LL2C_LIBM_frexpf __CPROVER_uninterpreted_frexpf
 #define LL2C_LIBM_frexp __CPROVER_uninterpreted_frexp
+/* fmin/fmax (C11 F.10.9.2-3, LLVM minnum/maxnum): the sign of the result for (+0,-0)/(-0,+0) is unspecified.  Modelled as
+ * an uninterpreted (deterministic, argument-dependent) choice so that no clause can depend on it, while two extractions
+ * calling fmin on the same arguments still agree. */
+_Bool __CPROVER_uninterpreted_fminmax_zero_sign32(u32, u32);
+_Bool __CPROVER_uninterpreted_fminmax_zero_sign64(u64, u64);
+static inline float ll2c_fminf(float a, float b) {
+  if (a == 0.0f && b == 0.0f && ll2c_f32_bits(a) != ll2c_f32_bits(b)) {
+    u32 x = ll2c_f32_bits(a), y = ll2c_f32_bits(b);
+    return __CPROVER_uninterpreted_fminmax_zero_sign32(x < y ? x : y, x < y ? y : x) ? -0.0f : 0.0f;
+  }
+  return fminf(a, b);
+}
+static inline float ll2c_fmaxf(float a, float b) {
+  if (a == 0.0f && b == 0.0f && ll2c_f32_bits(a) != ll2c_f32_bits(b)) {
+    u32 x = ll2c_f32_bits(a), y = ll2c_f32_bits(b);
+    return __CPROVER_uninterpreted_fminmax_zero_sign32((x < y ? x : y) ^ 1u, x < y ? y : x) ? -0.0f : 0.0f;
+  }
+  return fmaxf(a, b);
+}
+static inline double ll2c_fmin(double a, double b) {
+  if (a == 0.0 && b == 0.0 && ll2c_f64_bits(a) != ll2c_f64_bits(b)) {
+    u64 x = ll2c_f64_bits(a), y = ll2c_f64_bits(b);
+    return __CPROVER_uninterpreted_fminmax_zero_sign64(x < y ? x : y, x < y ? y : x) ? -0.0 : 0.0;
+  }
+  return fmin(a, b);
+}
+static inline double ll2c_fmax(double a, double b) {
+  if (a == 0.0 && b == 0.0 && ll2c_f64_bits(a) != ll2c_f64_bits(b)) {
+    u64 x = ll2c_f64_bits(a), y = ll2c_f64_bits(b);
+    return __CPROVER_uninterpreted_fminmax_zero_sign64((x < y ? x : y) ^ 1ull, x < y ? y : x) ? -0.0 : 0.0;
+  }
+  return fmax(a, b);
+}
 #endif
